@@ -880,7 +880,9 @@ def real_replay(ctx: Ctx, behs, rng: random.Random):
     stats["repeated_columns"] = repeated_columns_stratum(ctx, random.Random(20260930), stats)
     # behaviours in which the caller drops the events while the burn is ON, through the perturbed dynamics (the only real
     # model that reads finite_thrust): a fixed share of the sample, whatever the stratified draw below picks
-    live_drop = sorted((b for b in behs if dropped(b) and b["burn"]["kind"] != "none" and b["burn"]["ts"] < b["dropAt"] and b["K"] <= 2),
+    # (behaviours with a neighbour call are replayed by the exact-law part only: real_one reads every call as a continuation)
+    live_drop = sorted((b for b in behs if dropped(b) and b["burn"]["kind"] != "none" and b["burn"]["ts"] < b["dropAt"] and b["K"] <= 2
+                        and not has_neighbour_call(b)),
                        key=lambda b: json.dumps(b, sort_keys=True))
     forced = [live_drop[rng.randrange(len(live_drop))] for _ in range((4 if ctx.quick else 16) if live_drop else 0)]
     stats["dropped_with_thrust_on_sp"] = len(forced)
